@@ -15,6 +15,9 @@ use std::collections::BTreeMap;
 pub struct WatchAlloc;
 
 thread_local! {
+    /// fault injection: the next zeroed allocation with 16-byte alignment (an indirect descriptor table)
+    /// on this thread fails
+    static FAIL_NEXT_TABLE: Cell<bool> = const { Cell::new(false) };
     static WATCH_ON: Cell<bool> = const { Cell::new(false) };
     static FREES: RefCell<Vec<(u64, usize)>> = const { RefCell::new(Vec::new()) };
     static REPORTED: RefCell<Vec<usize>> = const { RefCell::new(Vec::new()) };
@@ -80,6 +83,9 @@ unsafe impl GlobalAlloc for WatchAlloc {
         unsafe { System.alloc(l) }
     }
     unsafe fn alloc_zeroed(&self, l: Layout) -> *mut u8 {
+        if l.align() == 16 && FAIL_NEXT_TABLE.try_with(|f| f.replace(false)).unwrap_or(false) {
+            return std::ptr::null_mut();
+        }
         if odd(&l) {
             // SAFETY: same contract, for the enclosing block.
             let p = unsafe { System.alloc_zeroed(outer(&l)) };
@@ -118,6 +124,12 @@ unsafe impl GlobalAlloc for WatchAlloc {
 
 #[global_allocator]
 static GLOBAL: WatchAlloc = WatchAlloc;
+
+/// makes the next indirect-table allocation of this thread fail (returns whether one was still armed
+/// when called with `false`, i.e. whether no such allocation happened)
+pub fn fail_next_table(on: bool) -> bool {
+    FAIL_NEXT_TABLE.with(|f| f.replace(on))
+}
 
 /// switches the free-watch on or off for this thread; switching on forgets earlier reports
 pub fn watch(on: bool) {
@@ -485,6 +497,16 @@ pub fn run(ctx: &Ctx) -> (Vec<Case>, String, bool, BTreeMap<String, String>) {
     let mut cases = crate::runner::par_cases(ctx, "C09", "model", scen.len(), |i, id| one_case(&scen[i], id, ctx.case_rng("model", i)));
     let (mm, mmio_rule) = crate::c08_mmio::run_mmio_c09(ctx);
     cases.extend(mm);
+    // blocking requests (every blocking driver operation goes through add_notify_wait_pop): the caller's
+    // buffers, borrowed for the call, are not given back while the chain is still posted — in particular
+    // not because the status register shows DEVICE_NEEDS_RESET while the device is still working
+    let mut bl = crate::c05_notify::blocking_cases(ctx, "C09");
+    for c in bl.iter_mut() {
+        c.oracle_failures.retain(|f| !f.starts_with("[C"));
+        c.id = format!("C09-via-{}", c.id);
+        c.tag("blocking-requests");
+    }
+    cases.extend(bl);
     // configuration space cut off at every length: a constructor that fails on a configuration read must
     // not release queue memory while the device is live, wherever it performs that read
     cases.extend(trunc_cases(ctx, "C09"));
